@@ -273,15 +273,29 @@ class C10(Prop):
             "sizes / own-extent read / aligned reads, then edit one or several configuration attributes in place, replace the "
             "configuration object, assign data of another shape, add/remove an element, observe again - each observation against the "
             "model/spec for the configuration and shape held then) and on ONE SRRLaser object (offsets, equal offsets, warm-up, spot "
-            "size/speed/scan time edited in place, configuration replaced). Every case is non-trivial; distinct by canonical case hash")
+            "size/speed/scan time edited in place, configuration replaced; the driver is told the constructor arguments and the sequence of "
+            "setter calls, Lean's setters compute the state). Every extent observation also encodes the real to_array() result (dtype names, "
+            "shape, values) for the driver and runs Config.from_array / SpotConfig.from_array on the real arrays of all three configuration "
+            "classes (outcome or exception class against the model's from_array). Every case is non-trivial; distinct by canonical case hash")
     trusted = [
         "float64 multiplication/division are correctly rounded, hence for the generated magnitudes (indices <= 4000) the float "
         "quotient bound/pixel-size is within 5e-7 of the exact quotient (assumption of get_aligned_rect); the model evaluates the exact quotient",
         "Python round(x, 6) is round-half-even on the exact value of x and int() truncates (theorem get_aligned_rect shows no tie is reachable)",
         "extent values are compared with the exact rational at 1e-12 relative; SRR extent/pixel ratios with the integer shape at 1e-9 relative",
-        "SRR: 'integer magnification' means spotsize/(speed*scantime) evaluates to an integer in float64 (DESIGN 6a); the model is given that value",
+        "SRR: 'integer magnification' means spotsize/(speed*scantime) evaluates to an integer in float64 (DESIGN 6a); the driver computes "
+        "that float64 value from the inputs (PewModel/Srr.lean `fl`) and the SRR configuration from the constructor / setter inputs",
+        "structured arrays: NumPy >= 2 semantics of float(array) (TypeError unless 0-d), array[name] (ValueError for a missing field), "
+        "indexing a 0-d array (IndexError); arrays are encoded for the driver field by field (names in dtype order, shape, exact values)",
+        "structural ties: the ~350-line typed translator harness/structural_c10.py (expression trees of the SRR configuration arithmetic, "
+        "SRRLaser.extent, Laser.get's index conversion -> Lean definitions, proved equal to the model functions on every run)",
     ]
-    assumptions = ["SRR extent/shape clause is checked only when the reconstruction succeeds (C09 covers success)"]
+    assumptions = [
+        "SRR extent/shape clause: when the model's validity check accepts the configuration the demanded shape is Lean's "
+        "reconRows/reconCols (the C09 specification) and both the extent/pixel ratio and the shape pewlib reconstructs must equal it; "
+        "when the reconstruction raises nothing is compared (C09 covers success)",
+        "a change of the array LAYOUT of to_array (field names, order, the SpotConfig two-element array) that keeps the values through "
+        "the round trip is reported as an implementation-vs-model difference, not as a violation of the specification",
+    ]
 
     # ------------------------------------------------------------------ generation
     def gen_shape(self, rng, tier):
